@@ -13,6 +13,11 @@
 //	         and all non-excepted positions manipulated at once
 //	layer C  keys of an invalid length (outcome only: the statement is silent)
 //	layer D  requests that carry the same cookie name twice
+//	layer E  how the exchange ends (ends.go): the handler returns nil / *fiber.Error / a plain error /
+//	         calls SendStatus / redirects / falls off the route table / panics behind recover, the
+//	         error is rendered by the default or a custom ErrorHandler or answered by a downstream
+//	         middleware, cookies are set in a downstream middleware and in the final handler,
+//	         before and after the response-writing call, one, two, or one name twice
 //
 // crypto/rand.Reader is replaced by a counter stream that is re-seeded per work item,
 // work items are sharded over sequential worker processes: results do not depend on
@@ -199,14 +204,22 @@ var reqBuf []byte
 // do sends one GET with the given Cookie header field values on a fresh in-memory
 // connection; the handler sets the cookies of set.
 func do(app *fiber.App, cookieHdrs [][]byte, set []ck) (e *exch) {
-	reqBuf = append(reqBuf[:0], "GET /x HTTP/1.1\r\nHost: h\r\n"...)
+	gSet = set
+	return doPath(app, "/x", cookieHdrs)
+}
+
+// doPath is do for any path; what the handlers set is taken from gSet (layers A-D) or gPlan (layer E).
+func doPath(app *fiber.App, path string, cookieHdrs [][]byte) (e *exch) {
+	reqBuf = append(reqBuf[:0], "GET "...)
+	reqBuf = append(reqBuf, path...)
+	reqBuf = append(reqBuf, " HTTP/1.1\r\nHost: h\r\n"...)
 	for _, h := range cookieHdrs {
 		reqBuf = append(reqBuf, "Cookie: "...)
 		reqBuf = append(reqBuf, h...)
 		reqBuf = append(reqBuf, '\r', '\n')
 	}
 	reqBuf = append(reqBuf, '\r', '\n')
-	gSet, gView, gGet, gRan = set, nil, map[string]string{}, 0
+	gView, gGet, gRan, gRanFinal = nil, map[string]string{}, 0, 0
 	e = &exch{}
 	conn := fx.NewWireConn(reqBuf, nil)
 	func() {
@@ -259,6 +272,19 @@ type cx struct {
 	layer string
 	ki    int
 	mask  int
+	// layer E only: description of the plan for the case, the class of the handler end and,
+	// per cookie of the set handed to checkResp, where it was set (both go into signatures)
+	extra    map[string]any
+	endClass string
+	setAt    []string
+}
+
+// endSfx is appended to response-side signatures: empty in layers A-D (handler returns nil, 200).
+func (x *cx) endSfx() string {
+	if x.endClass == "" {
+		return ""
+	}
+	return " end=" + x.endClass
 }
 
 func (x *cx) caseMap(req []sent, set []ck, e *exch) map[string]any {
@@ -271,6 +297,9 @@ func (x *cx) caseMap(req []sent, set []ck, e *exch) map[string]any {
 	}
 	m := map[string]any{"layer": x.layer, "key_base64": keys[x.ki], "key_bytes": keyBytes[x.ki], "except": exceptOf(x.mask),
 		"request_cookies": rq, "handler_sets": st}
+	for k, v := range x.extra {
+		m[k] = v
+	}
 	if e != nil {
 		for _, v := range e.View {
 			vw = append(vw, v.N+"="+q(v.V))
@@ -482,14 +511,14 @@ func (x *cx) checkResp(e, b *exch, req []sent, set []ck) []string {
 	}
 	got := e.Resp.SetCookies
 	if len(got) != len(set) {
-		x.l.Violate(fmt.Sprintf("set-cookie-count set=%d on-wire=%d", len(set), len(got)),
+		x.l.Violate(fmt.Sprintf("set-cookie-count set=%d on-wire=%d", len(set), len(got))+x.endSfx(),
 			"the response does not carry exactly one Set-Cookie per cookie the handler set", x.caseMap(req, set, e), len(got), len(set))
 		return nil
 	}
 	byName := map[string]int{}
 	for i, sc := range got {
 		if _, dup := byName[sc.Name]; dup {
-			x.l.Violate("set-cookie-duplicated", "a cookie name appears twice on the wire", x.caseMap(req, set, e), sc.Name, nil)
+			x.l.Violate("set-cookie-duplicated"+x.endSfx(), "a cookie name appears twice on the wire", x.caseMap(req, set, e), sc.Name, nil)
 			return nil
 		}
 		byName[sc.Name] = i
@@ -498,7 +527,7 @@ func (x *cx) checkResp(e, b *exch, req []sent, set []ck) []string {
 	for i, s := range set {
 		j, okn := byName[s.N]
 		if !okn {
-			x.l.Violate("set-cookie-missing", "a cookie the handler set is not on the wire", x.caseMap(req, set, e), s.N, nil)
+			x.l.Violate("set-cookie-missing"+x.endSfx(), "a cookie the handler set is not on the wire", x.caseMap(req, set, e), s.N, nil)
 			return nil
 		}
 		if j != i {
@@ -512,7 +541,7 @@ func (x *cx) checkResp(e, b *exch, req []sent, set []ck) []string {
 		wire[i] = sc.Value
 		if excepted(x.mask, s.N) {
 			if sc.Line != bl.Line {
-				x.l.Violate("excepted-response-cookie-changed value-class="+valueClass(s.V),
+				x.l.Violate("excepted-response-cookie-changed value-class="+valueClass(s.V)+x.endSfx(),
 					"a response cookie whose name is in Except is not on the wire as the handler set it", x.caseMap(req, set, e), q(sc.Line), q(bl.Line))
 			} else {
 				x.l.Outcome("response: excepted cookie byte-identical to no-middleware line")
@@ -537,8 +566,12 @@ func (x *cx) checkResp(e, b *exch, req []sent, set []ck) []string {
 			leak = "value-is-plaintext-as-cookie-syntax-carries-it"
 		}
 		if leak != "" {
-			x.l.Violate(fmt.Sprintf("plaintext-on-wire how=%s value-class=%s cookies-set=%s", leak, valueClass(s.V), sizeClass(len(set))),
-				"a non-excepted cookie reaches the client with its plaintext", x.caseMap(req, set, e), q(sc.Line), "ciphertext only")
+			sig := fmt.Sprintf("plaintext-on-wire how=%s value-class=%s cookies-set=%s", leak, valueClass(s.V), sizeClass(len(set)))
+			if x.endClass != "" {
+				// layer E: the class is how the exchange ended and where the cookie was set
+				sig = fmt.Sprintf("plaintext-on-wire end=%s set-at=%s", x.endClass, x.setAt[i])
+			}
+			x.l.Violate(sig, "a non-excepted cookie reaches the client with its plaintext ("+leak+")", x.caseMap(req, set, e), q(sc.Line), "ciphertext only")
 			continue
 		}
 		if !distinctive(s.V) {
@@ -1150,6 +1183,8 @@ type item struct {
 	Mask  int
 	Tuple []int
 	Bad   int
+	EH    int // layer E: 0 default ErrorHandler, 1 custom
+	St    int // layer E: 0 app.Use chain, 1 route-level handler chain
 	Part  int // layer A, 4 KiB value: the manipulations are split by position into Parts work items
 	Parts int
 }
@@ -1171,6 +1206,11 @@ func (it item) cost(thorough bool) float64 {
 			return 1.5
 		}
 		return 0.3
+	case "E":
+		if thorough {
+			return 0.6
+		}
+		return 0.15
 	}
 	return 0.01
 }
@@ -1280,6 +1320,21 @@ func main() {
 		}
 	}
 
+	// layer E: appended last so that the random streams (seeded by item index) of layers A-D stay as they were
+	menuE := []string{valuesAll[2], valuesAll[6], valuesAll[1]}
+	if !quick {
+		menuE = []string{valuesAll[2], valuesAll[6], valuesAll[1], valuesAll[3], valuesAll[4], valuesAll[5], valuesAll[0]}
+	}
+	for _, ki := range keysB {
+		for mask := 0; mask < 8; mask++ {
+			for eh := 0; eh < 2; eh++ {
+				for st := 0; st < 2; st++ {
+					items = append(items, item{Layer: "E", Ki: ki, Mask: mask, EH: eh, St: st})
+				}
+			}
+		}
+	}
+
 	if r.IsWorker() {
 		// the live heap of a worker is tiny and every exchange leaves a few KiB of garbage:
 		// with the default GOGC more than a third of the CPU went into back-to-back GC cycles
@@ -1313,6 +1368,8 @@ func main() {
 				layerC(l, badKeys[it.Bad])
 			case "D":
 				layerD(l, it.Ki, it.Ni, vals)
+			case "E":
+				layerE(l, it.Ki, it.Mask, it.EH, it.St, menuE, it.St == 0 && ((it.Ki == 0 && it.Mask == 0 && it.EH == 0) || (it.Ki == 4 && it.Mask == 2 && it.EH == 1)))
 			}
 			l.Add("work_items", 1)
 			if os.Getenv("VERIF_PROGRESS") != "" {
@@ -1344,7 +1401,7 @@ func main() {
 	sort.Slice(r.P.Samples, func(i, j int) bool { return core.Key(r.P.Samples[i]) < core.Key(r.P.Samples[j]) })
 	c := r.P.Counters
 	if len(r.P.Violations) == 0 && len(r.P.Caps) == 0 {
-		for _, k := range []string{"replay_ok", "tamper_rejected_or_same", "altered_same_bytes_accepted", "excepted_req_pass", "excepted_resp_pass", "encrypted_resp", "otherkey_rejected", "multi_cookie_exchanges", "dup_name_requests"} {
+		for _, k := range []string{"replay_ok", "tamper_rejected_or_same", "altered_same_bytes_accepted", "excepted_req_pass", "excepted_resp_pass", "encrypted_resp", "otherkey_rejected", "multi_cookie_exchanges", "dup_name_requests", "ends_exchanges", "ends_error_status_encrypted", "ends_error_returned_encrypted"} {
 			if c[k] == 0 {
 				core.Fatal("vacuous exploration: mechanism counter %s is 0", k)
 			}
@@ -1359,10 +1416,10 @@ func main() {
 		Coverage: map[string]any{
 			"evaluations":         c["evaluations"],
 			"distinct_nontrivial": c["nontrivial"],
-			"rule": fmt.Sprintf("every request/response exchange with the real middleware over ServeConn is one evaluation. Layer A: %d keys x %d names x %d values x 8 Except subsets (the 4 KiB value of the thorough tier: 3 Except sets), one cookie: issue, replay, then EVERY substitution of every character by each of the %d characters of base64+'='+'-'+' ', every prefix and suffix truncation, every one-character insertion at every position, the ciphertext of each other key, of each other value, of each other name, and the plaintext. Layer B: %d keys x all ordered name tuples of size 2 (value menu %d^2) and 3 (value menu %d^3) x 8 Except subsets: issue, replay in one / in separate Cookie headers while the handler sets cookies again, then a fixed family of ~85 manipulations on each position with the others valid, then all non-excepted positions manipulated at once. Layer C: %d invalid keys. Layer D: duplicate-name requests. Non-trivial = an exchange whose request carries at least one cookie that is not an unmodified issued one, or whose response carries a non-excepted non-empty cookie (counted in the loop).",
-				len(keys), len(names), nv, len(mutAlpha), len(keysB), len(menu2), len(menu3), len(badKeys)),
+			"rule": fmt.Sprintf("every request/response exchange with the real middleware over ServeConn is one evaluation. Layer A: %d keys x %d names x %d values x 8 Except subsets (the 4 KiB value of the thorough tier: 3 Except sets), one cookie: issue, replay, then EVERY substitution of every character by each of the %d characters of base64+'='+'-'+' ', every prefix and suffix truncation, every one-character insertion at every position, the ciphertext of each other key, of each other value, of each other name, and the plaintext. Layer B: %d keys x all ordered name tuples of size 2 (value menu %d^2) and 3 (value menu %d^3) x 8 Except subsets: issue, replay in one / in separate Cookie headers while the handler sets cookies again, then a fixed family of ~85 manipulations on each position with the others valid, then all non-excepted positions manipulated at once. Layer C: %d invalid keys. Layer D: duplicate-name requests. Layer E (how the exchange ends): %d keys x 8 Except subsets x {default, custom ErrorHandler} x {app.Use chain, route-level handler chain} x %d handler ends (return nil with/without body, 201, redirect, SendStatus 403/502, *fiber.Error 401/503, plain error, body then *fiber.Error, wrapped *fiber.Error, c.Next() with no further route, no route at all, panic behind the recover middleware) x {downstream middleware propagates / answers the error} x cookie placements over 4 slots (downstream middleware before/after c.Next(), final handler before/after its response-writing call): one cookie, two cookies over all slot pairs, one name set twice, x %d value rotations; every exchange also carries one validly issued request cookie; the application without the middleware must answer with the planned status and cookies (self-check). Non-trivial = an exchange whose request carries at least one cookie that is not an unmodified issued one, or whose response carries a non-excepted non-empty cookie (counted in the loop).",
+				len(keys), len(names), nv, len(mutAlpha), len(keysB), len(menu2), len(menu3), len(badKeys), len(keysB), len(ends), len(menuE)),
 			"bounds": map[string]any{"keys": len(keys), "key_lengths": []int{16, 24, 32}, "names": names, "values": nv, "max_value_bytes": len(vals[nv-1]),
-				"except_subsets": 8, "cookies_per_exchange_max": 3, "mutation_alphabet": mutAlpha, "work_items": len(items), "workers": nw},
+				"except_subsets": 8, "cookies_per_exchange_max": 3, "handler_ends": len(ends), "cookie_slots": nSlots, "mutation_alphabet": mutAlpha, "work_items": len(items), "workers": nw},
 		},
 		Assumptions: []string{
 			"AES-GCM, crypto/rand replaced by a SHA-256 counter stream (unique nonces), encoding/base64 and fasthttp's request parsing are trusted",
